@@ -12,6 +12,7 @@ import (
 	"verif/lib/ev"
 	"verif/lib/lin"
 	"verif/lib/schk"
+	"verif/lib/spell"
 	"verif/vrt"
 )
 
@@ -80,6 +81,7 @@ var regTypes = []struct {
 	}},
 	{"[2]int", func() areg { return &treg[[2]int]{vals: [][2]int{{}, {0, 1}, {1, 0}}} }},
 	{"float64", func() areg { return &treg[float64]{vals: []float64{0, 1, math.Inf(1)}} }},
+	{"struct whose Equal method says yes to everything", func() areg { return &treg[spell.Liar]{vals: []spell.Liar{{0}, {1}, {2}}} }},
 }
 
 type arec struct {
